@@ -89,27 +89,36 @@ type Config struct {
 	HB         bool
 	TrackAlloc bool
 	FnYield    bool // function entries of instrumented code are scheduling points
+	// Stalls: this many times per run the thread that has just taken a step is not scheduled again for StallLen
+	// steps (unless nothing else can run) - a goroutine the operating system or the collector keeps off the CPU
+	// while the rest of the system goes on.  Opens check-then-act windows that are only a few steps wide.
+	Stalls   int
+	StallLen int
 }
 
 // Sim is the state of one run.
 type Sim struct {
-	mu       sync.Mutex
-	cfg      Config
-	Rng      *rand.Rand // scheduler decisions
-	threads  []*Thread
-	byGID    map[uint64]*Thread
-	running  *Thread
-	nextID   int
-	pending  *Thread // child being spawned (PreGo..GoStart)
-	events   []Event
-	wake     chan struct{}
-	Step     uint64
-	killed   bool
-	start    time.Time
-	hash     uint64
-	Trace    []int32
-	Deaths   []*Thread // threads that died from an escaped panic ("process death")
-	EndCause string
+	stallAt     map[uint64]bool
+	stalled     *Thread
+	stallUntil  uint64
+	StallsFired int
+	mu          sync.Mutex
+	cfg         Config
+	Rng         *rand.Rand // scheduler decisions
+	threads     []*Thread
+	byGID       map[uint64]*Thread
+	running     *Thread
+	nextID      int
+	pending     *Thread // child being spawned (PreGo..GoStart)
+	events      []Event
+	wake        chan struct{}
+	Step        uint64
+	killed      bool
+	start       time.Time
+	hash        uint64
+	Trace       []int32
+	Deaths      []*Thread // threads that died from an escaped panic ("process death")
+	EndCause    string
 	// statistics
 	MaxReady       int
 	MultiReady     uint64 // steps at which >= 2 choices were enabled
@@ -217,6 +226,12 @@ func New(cfg Config) *Sim {
 		YieldCounts: map[string]uint64{},
 		HB:          cfg.HB,
 		TrackAlloc:  cfg.TrackAlloc,
+	}
+	if cfg.Stalls > 0 {
+		s.stallAt = map[uint64]bool{}
+		for i := 0; i < cfg.Stalls; i++ {
+			s.stallAt[uint64(s.Rng.Intn(6000))] = true
+		}
 	}
 	if cfg.Policy == PolPCT {
 		s.pctChange = map[uint64]bool{}
@@ -700,6 +715,17 @@ func (s *Sim) Run() {
 			tm.Stop()
 			continue
 		}
+		if s.stalled != nil && s.Step < s.stallUntil && len(cs) > 1 {
+			kept := cs[:0:0]
+			for _, c := range cs {
+				if c.t != s.stalled {
+					kept = append(kept, c)
+				}
+			}
+			if len(kept) > 0 {
+				cs = kept
+			}
+		}
 		sort.Slice(cs, func(i, j int) bool { return cs[i].id < cs[j].id })
 		if len(cs) > s.MaxReady {
 			s.MaxReady = len(cs)
@@ -746,6 +772,14 @@ func (s *Sim) Run() {
 			idx = 0
 		}
 		c := cs[idx]
+		if s.stallAt != nil && s.stallAt[s.Step] && c.t != nil {
+			n := s.cfg.StallLen
+			if n == 0 {
+				n = 400
+			}
+			s.stalled, s.stallUntil = c.t, s.Step+1+uint64(n)
+			s.StallsFired++
+		}
 		s.Step++
 		s.hash = (s.hash ^ uint64(uint32(c.id))) * 1099511628211
 		s.hash = (s.hash ^ uint64(len(cs))) * 1099511628211
